@@ -20,6 +20,8 @@ func seqSpecsFor(id, tier string) []*SeqSpec {
 		return []*SeqSpec{specC10(tier, 0), specC10(tier, 1), specC10(tier, 2)}
 	case "C15":
 		return []*SeqSpec{specC15hello(tier)}
+	case "C18":
+		return []*SeqSpec{specC18(tier), specC18long(tier)}
 	}
 	if sp := seqSpecFor(id, tier); sp != nil {
 		return []*SeqSpec{sp}
@@ -43,6 +45,8 @@ func seqSpecFor(id, tier string) *SeqSpec {
 		return specC14(tier)
 	case "C15#hello":
 		return specC15hello(tier)
+	case "C18#long":
+		return specC18long(tier)
 	case "C06":
 		return specC06(tier)
 	case "C07":
@@ -171,6 +175,11 @@ func runCheck(id, tier string) int {
 			runSeqCheck(sp, tier, rep)
 		}
 		ran = true
+	}
+	// the iterator of a family belongs to the family: its iteration histories (C17's engine) are part
+	// of the family's check
+	if sel, ok := map[string]string{"C04": "hscan/", "C05": "sscan/", "C06": "scan/"}[id]; ok {
+		runScanCheckSel(tier, rep, sel, "iteration_")
 	}
 	if gs := exploreGroupsFor(id); gs != nil {
 		rep.Assume = append(rep.Assume, assumptions["explore"]...)
